@@ -271,6 +271,20 @@ func (r *Run) eval(e *Env, x *SX) *Val {
 		}
 		key := args[0].Atom + "#" + k
 		res, ok := e.st.calls[key]
+		if !ok && k == "0" {
+			// the call may have moved into a helper that is verified inlined: if exactly one call of that callee was made inside
+			// helpers on this path, that is the one
+			n := 0
+			for k2, v := range e.st.calls {
+				if i := strings.LastIndex(k2, ":"+args[0].Atom+"#"); i >= 0 && !strings.Contains(k2[i+1:], ":") {
+					res, n = v, n+1
+				}
+			}
+			ok = n == 1
+			if !ok {
+				res = nil
+			}
+		}
 		if h == "called" {
 			if ok {
 				return boolVal("true")
@@ -324,6 +338,23 @@ func (r *Run) eval(e *Env, x *SX) *Val {
 			fmt.Sscanf(args[1].Atom, "%d", &k)
 		}
 		cs := e.fr.cellsBy[name]
+		if k >= len(cs) {
+			// a clause of the function under verification evaluated at a call inside one of its helpers: its locals are those of the
+			// calling frames
+			for pf := e.fr.parent; pf != nil && k >= len(cs); pf = pf.parent {
+				cs = pf.cellsBy[name]
+			}
+		}
+		if k >= len(cs) && k == 0 {
+			// not a local variable of this frame: a parameter of that name will do (the call may have moved into a helper)
+			for _, p := range e.fr.fn.Params {
+				if p.Name() == name {
+					if v, ok := e.fr.vals[p]; ok {
+						return v
+					}
+				}
+			}
+		}
 		if k >= len(cs) {
 			r.toolErr("%s: no local %q (#%d) allocated at this point in %s", e.ctx, name, k, fnName(e.fr.fn))
 			return opaque("0")
